@@ -51,7 +51,9 @@ STUBBED = ["socket/select/time/pinger (simkit)", "hosts and links (harness)",
            "DeferredSender (no back-pressure in this world)"]
 EXPECT_PROBES = ["flooded_unknown", "flooded_multicast", "unicast_known",
                  "flow_hit", "filtered", "same_port_drop", "host_moved",
-                 "timeout_gap", "no_buffer_path", "multi_switch"]
+                 "timeout_gap", "no_buffer_path", "multi_switch",
+                 "port_number_zero", "frame_with_ecn_bits",
+                 "frame_is_ip_fragment"]
 
 
 def gen_plan(seed, tier):
@@ -137,6 +139,10 @@ def gen_plan(seed, tier):
     # the two ECN bits (a flow installed for a frame has to match that frame)
     if st["op"] == "frame" and st["l3"] == "udp" and r8.chance(0.3):
       st["tos"] = r8.pick([0xb8, 0x02, 0x01, 0x03, 0xff, 0x28])
+    if st["op"] == "frame" and st["l3"] == "udp" and r8.chance(0.1):
+      # a fragment of a larger datagram (first: MF set, the UDP header is
+      # there; later: an offset, no transport header at all)
+      st["frag"] = r8.pick(["first", "later", "last"])
   return {"prop": PROP, "seed": seed, "cfg": cfg, "steps": steps}
 
 
@@ -178,7 +184,7 @@ def run_plan(plan):
   return res
 
 
-def _frame(src_mac, dst_mac, tag, l3, flow, ethertype=None, tos=0):
+def _frame(src_mac, dst_mac, tag, l3, flow, ethertype=None, tos=0, frag=None):
   body = struct.pack("!L", tag) + b"tagged-payload"
   if ethertype is not None:
     return F.eth(dst_mac, src_mac, ethertype, body + b"\0" * 30)
@@ -187,7 +193,9 @@ def _frame(src_mac, dst_mac, tag, l3, flow, ethertype=None, tos=0):
     dip = F.ip(10, 0, 0, dst_mac[5] or 250)
     return F.eth(dst_mac, src_mac, F.ETH_IP,
                  F.ipv4(sip, dip, 17, F.udp(sip, dip, 1000 + flow, 2000,
-                                            body), tos=tos))
+                                            body), tos=tos,
+                        flags={"first": 1, "later": 1}.get(frag, 0),
+                        frag={"later": 5, "last": 9}.get(frag, 0)))
   if l3 == "arp":
     return F.eth(dst_mac, src_mac, F.ETH_ARP,
                  F.arp(1, src_mac, F.ip(10, 0, 0, src_mac[5]), b"\0" * 6,
@@ -451,7 +459,9 @@ def _drive(sim, plan, known, hit):
         srcmac = b"\x01\x00\x5e\x00\x00\x05"
         sim.probes["group_address_as_source"] += 1
       raw = _frame(srcmac, dst, tag[0], st["l3"], st["flow"], et,
-                   tos=st.get("tos", 0))
+                   tos=st.get("tos", 0), frag=st.get("frag"))
+      if st.get("frag"):
+        sim.probes["frame_is_ip_fragment"] += 1
       if st.get("tos", 0) & 3:
         sim.probes["frame_with_ecn_bits"] += 1
       sw, port = hostpos[s]
